@@ -59,6 +59,7 @@ MUTANTS = [
     {"id": "c10-fit-mutates-argument", "expect": "fire", "edits": [(P, "            result = [filler, ]\n            result.extend(ch_chunks)\n            return result", "            ch_chunks.insert(0, filler)\n            return ch_chunks")]},
     # neutral
     {"id": "c10-line-buffer-cleared-in-place", "expect": "fire", "edits": [(P, "                yield CHText.make(line_chunks)\n                line_chunks = []", "                yield CHText.make(line_chunks)\n                line_chunks.clear()")]},
+    {"id": "c10-resize-cuts-argument-in-place", "expect": "fire", "edits": [(C, "                result.append(item.clone(item.text[:remaining_len]))\n                remaining_len = 0", "                result.append(item.clone(item.text[:remaining_len]))\n                remaining_len = 0\n                del chunks[len(result):]")]},
     {"id": "c10-n-weakkey", "expect": "silent", "edits": [(P, "        self._cache = {}\n\n        self._cache_lengths", "        import weakref\n        self._cache = weakref.WeakKeyDictionary()\n\n        self._cache_lengths")]},
     {"id": "c10-n-local-palette-var", "expect": "silent", "edits": [(P, """        return CHTextResult(
             self,
